@@ -110,14 +110,14 @@ class Prov:
             # inductive: assume the variable is safe at the loop head while checking every value it is ever assigned
             v0 = m.group(1)
             if v0 in self.assuming: return True
-            if (v0, X, id(p), i) in self.proved: return self.proved[(v0, X, id(p), i)]
+            tested = p.passed(X, True, before=i) or p.passed(f'({X} != NULL)', True, before=i) or p.passed(f'({X} == NULL)', False, before=i)
+            if (v0, tested) in self.proved: return self.proved[(v0, tested)]
             self.assuming.add(v0)
             try:
                 vals = self.assigned.get(v0, [])
                 seen = set(); ok = bool(vals)
                 # "in the string, or NULL": a search result stored before its NULL test is fine when the use site has
                 # established that the loop-carried pointer is not NULL
-                tested = p.passed(X, True, before=i) or p.passed(f'({X} != NULL)', True, before=i) or p.passed(f'({X} == NULL)', False, before=i)
                 for q, j, v in vals:
                     if v == 'NULL' or re.fullmatch(r"\w+@L\d+'*", v): continue
                     cs = [e for e in q.events[:j + 1] if e[0] == 'call' and e[3] == v]
@@ -127,7 +127,7 @@ class Prov:
                     if not self.safe(v, q, j, depth + 1): ok = False; break
             finally:
                 self.assuming.discard(v0)
-            if not self.assuming: self.proved[(v0, X, id(p), i)] = ok
+            if not self.assuming: self.proved[(v0, tested)] = ok
             return ok
         b, k = shared.ptr_off(X)
         if b != X and k > 0:
@@ -478,13 +478,15 @@ def run(ck):
         for fname, f in tu.own_functions().items():
             accs = set()
             for l in [n for n in astutil.walk(f) if n.get('kind') in ('ForStmt', 'WhileStmt', 'DoStmt')]:
+                if small_trip_count(tu, fname, f, l): continue          # a counted loop of at most a few rounds (every caller passes a literal count): no overflow by repetition
                 for n in astutil.walk(l):
                     if n.get('kind') == 'CompoundAssignOperator' and n.get('opcode') in ('*=', '<<='):
                         accs.add(cfgpaths.Engine(tu, fname).render(n['inner'][0], cfgpaths.Path(), lvalue=True))
                     if n.get('kind') == 'BinaryOperator' and n.get('opcode') == '=':
                         lv = cfgpaths.Engine(tu, fname).render(n['inner'][0], cfgpaths.Path(), lvalue=True)
                         rhs = astutil.strip(n['inner'][1])
-                        if rhs.get('kind') == 'BinaryOperator' and rhs.get('opcode') in ('*', '<<') and any(m.get('kind') == 'DeclRefExpr' and m['referencedDecl'].get('name') == lv for m in astutil.walk(rhs)): accs.add(lv)
+                        # x = x * 10 + d, x = d + (x << 4), ...: a product / shift of the variable itself anywhere in the right-hand side
+                        if any(m.get('kind') == 'BinaryOperator' and m.get('opcode') in ('*', '<<') and any(y.get('kind') == 'DeclRefExpr' and y['referencedDecl'].get('name') == lv for y in astutil.walk(m)) for m in astutil.walk(rhs)): accs.add(lv)
             if not accs: continue
             eng, paths = cfgpaths.summarise(tu, fname)
             for x in sorted(accs):
@@ -525,9 +527,20 @@ def run(ck):
                         eng = cfgpaths.Engine(tu, fname)
                         it = eng.render(idx, cfgpaths.Path())
                         ok = None; why = ''
+                        if G == 'errors' and idx.get('kind') == 'DeclRefExpr' and idx['referencedDecl'].get('kind') == 'VarDecl':
+                            # a local that only ever holds eav->errcode
+                            vn = idx['referencedDecl']['name']
+                            srcs = set()
+                            for d in astutil.walk(f):
+                                if d.get('kind') == 'VarDecl' and d.get('name') == vn:
+                                    ini = [x for x in d.get('inner', []) if 'Comment' not in x.get('kind', '')]
+                                    srcs.add(eng.render(ini[0], cfgpaths.Path()) if ini else '<uninitialised>')
+                                if d.get('kind') == 'BinaryOperator' and d.get('opcode') == '=' and astutil.strip(d['inner'][0]).get('kind') == 'DeclRefExpr' and astutil.strip(d['inner'][0])['referencedDecl'].get('name') == vn:
+                                    srcs.add(eng.render(d['inner'][1], cfgpaths.Path()))
+                            if srcs == {'eav->errcode'}: it = 'eav->errcode'
                         if re.fullmatch(r'\d+', it):
                             ok = size is not None and int(it) < size; why = f'{G}[{it}] with {size} elements'
-                        elif idx.get('kind') == 'DeclRefExpr':
+                        elif idx.get('kind') == 'DeclRefExpr' and it != 'eav->errcode':
                             v = idx['referencedDecl']['name']
                             loops = [l for l in stack if l.get('kind') == 'ForStmt']
                             for l in reversed(loops):
@@ -570,6 +583,37 @@ def run(ck):
     c14.run(ck)
     ck.undecided('signed overflow of counters for inputs above 2^31 bytes; ptrdiff to int narrowing beyond INT_MAX; anything inside libidn2 / libc; "64 KiB inputs run in linear time" is argued from one-pass progress, not measured')
     ck.assume('NUL-terminated input with length == strlen (statement); allocation failure aside')
+
+
+def small_trip_count(tu, fname, f, loop, limit=8):
+    """while (n > 0) { ...; n -= 1; } / for (; n--; ) where n is a parameter that every call site in the unit passes as an
+    integer literal <= limit, and nothing else writes n"""
+    eng = cfgpaths.Engine(tu, fname)
+    cond = loop['inner'][2] if loop['kind'] == 'ForStmt' else (loop['inner'][-2] if loop['kind'] == 'WhileStmt' else loop['inner'][1])
+    if not cond or not cond.get('kind'): return False
+    cs = eng.render(cond, cfgpaths.Path())
+    m = re.fullmatch(r'\((\w+) (?:>|!=) 0\)|\((\w+) >= 1\)|(\w+)|\((\w+)-- (?:>|!=) 0\)', cs)
+    if not m: return False
+    v = next(g for g in m.groups() if g)
+    params = [c['name'] for c in f.get('inner', []) if c.get('kind') == 'ParmVarDecl']
+    if v not in params: return False
+    # writes to v inside the function: only decrements by one
+    for w in astutil.walk(f):
+        tgt = None
+        if w.get('kind') in ('BinaryOperator', 'CompoundAssignOperator') and (w.get('opcode') == '=' or w.get('kind') == 'CompoundAssignOperator'): tgt = astutil.strip(w['inner'][0])
+        if w.get('kind') == 'UnaryOperator' and w.get('opcode') in ('++', '--'): tgt = astutil.strip(w['inner'][0])
+        if tgt is not None and tgt.get('kind') == 'DeclRefExpr' and tgt['referencedDecl']['name'] == v:
+            okw = (w.get('kind') == 'UnaryOperator' and w.get('opcode') == '--') or (w.get('kind') == 'CompoundAssignOperator' and w.get('opcode') == '-=' and eng.render(w['inner'][1], cfgpaths.Path()) == '1')
+            if not okw: return False
+    idx = params.index(v); sites = 0
+    for gname, g in tu.functions.items():
+        for nm, c in astutil.calls_in(g):
+            if nm != fname: continue
+            sites += 1
+            a = c['inner'][1:][idx] if idx < len(c['inner'][1:]) else None
+            t = eng.render(a, cfgpaths.Path()) if a is not None else ''
+            if not re.fullmatch(r'\d+', t) or int(t) > limit: return False
+    return sites > 0
 
 
 def amortised_search(tu, fname, loop, call):
